@@ -24,7 +24,44 @@ def client_arrays(spec):
   y = (x @ w + noise).astype(np.float32)
   if spec.get('nan') and n:
     y[0] = np.nan          # a non-finite value on a REAL example
+  lay = spec.get('lay')
+  if lay:        # the same values in a non-default memory layout (WAVE5 item 1)
+    x, y = relayout(x, lay), relayout(y, lay)
   return {'x': x, 'y': y, 'domain_id': np.array(dom, np.int32).reshape(n)}
+
+
+def relayout(a, lay):
+  """A numpy array equal to `a` element-wise but Fortran-ordered / a transposed view / an every-other-row slice / a
+  negative-stride view / a column slice of a wider array / read-only / of byte-swapped dtype."""
+  a = np.asarray(a)
+  if a.ndim == 0 and lay not in ('ro', 'skip'):
+    return a.copy()          # (np.asfortranarray of a 0-d array would make it 1-d)
+  if lay == 'F':
+    return np.asfortranarray(a)
+  if lay == 'T':
+    return np.ascontiguousarray(a.T).T if a.ndim >= 2 else a
+  if lay == 'skip':
+    big = np.zeros((2 * a.shape[0],) + a.shape[1:], a.dtype) if a.ndim else np.zeros((2,), a.dtype)
+    if a.ndim:
+      big[::2] = a
+      return big[::2]
+    big[0] = a
+    return big[0:1].reshape(())
+  if lay == 'neg':
+    return np.ascontiguousarray(a[::-1])[::-1] if a.ndim else a
+  if lay == 'col':
+    if a.ndim == 0:
+      return a
+    wide = np.zeros(a.shape[:-1] + (a.shape[-1] + 3,), a.dtype)
+    wide[..., 1:1 + a.shape[-1]] = a
+    return wide[..., 1:1 + a.shape[-1]]
+  if lay == 'ro':
+    b = a.copy()
+    b.setflags(write=False)
+    return b
+  if lay == 'swap':
+    return a.astype(a.dtype.newbyteorder('S'))
+  raise ValueError(lay)
 
 
 def client_dataset(spec):
@@ -32,16 +69,37 @@ def client_dataset(spec):
   return fedjax.ClientDataset(client_arrays(spec))
 
 
-def init_params(k=0):
+PTuple = __import__('collections').namedtuple('PTuple', ['b', 'w'])
+
+
+def init_params(k=0, ptree='dict', playout=None):
+  """The two leaves (b: 0-d, w: shape (2,)) in the container kind `ptree`: dict (haiku style), tuple, list, NamedTuple,
+  haiku FlatMap, dict with an extra None sub-tree; `playout`: the leaves as numpy arrays in a non-default layout."""
   import jax.numpy as jnp
   w = [(0.0, 0.0), (0.5, -0.25), (-0.75, 0.5), (1.0, 1.0)][k % 4]
   b = [0.0, 0.125, -0.25, 0.5][k % 4]
-  return {'lin': {'b': jnp.asarray(b, jnp.float32), 'w': jnp.asarray(w, jnp.float32)}}
+  b, w = jnp.asarray(b, jnp.float32), jnp.asarray(w, jnp.float32)
+  if playout:
+    b, w = relayout(np.asarray(b), playout), relayout(np.asarray(w), playout)
+  if ptree == 'tuple':
+    return (b, w)
+  if ptree == 'list':
+    return [b, w]
+  if ptree == 'nt':
+    return PTuple(b, w)
+  if ptree == 'flatmap':
+    import haiku as hk
+    return hk.data_structures.to_immutable_dict({'lin': {'b': b, 'w': w}})
+  if ptree == 'none':
+    return {'lin': {'b': b, 'w': w}, 'unused': None}
+  return {'lin': {'b': b, 'w': w}}
 
 
 def per_example_loss(params, batch, rng):
   del rng
-  pred = batch['x'] @ params['lin']['w'] + params['lin']['b']
+  import jax
+  b, w = jax.tree_util.tree_leaves(params)[:2]       # any container kind: the leaves are (b, w) in flattening order
+  pred = batch['x'] @ w + b
   return 0.5 * (pred - batch['y']) ** 2
 
 
@@ -140,16 +198,17 @@ def apfl_eval():
         return fedjax.metrics.MeanStat.new((prediction - example['y']) ** 2, 1.)
 
     model = fedjax.Model(init=None, apply_for_train=None,
-                         apply_for_eval=lambda params, batch: batch['x'] @ params['lin']['w'] + params['lin']['b'],
+                         apply_for_eval=lambda params, batch: batch['x'] @ __import__('jax').tree_util.tree_leaves(params)[1] + __import__('jax').tree_util.tree_leaves(params)[0],
                          train_loss=None, eval_metrics={'sqerr': SqErr()})
     return apfl.eval_adaptive_personalized_federated_learning(model, fedjax.PaddedBatchHParams(batch_size=4))
   return cached(('apfl_eval',), make)
 
 
 def init_state(name, hp, alg):
+  pt, pl = hp.get('ptree', 'dict'), hp.get('playout')
   if name == 'hyp_cluster':
-    return alg.init([init_params(k + hp.get('p0', 0)) for k in range(hp.get('K', 2))])
-  return alg.init(init_params(hp.get('p0', 0)))
+    return alg.init([init_params(k + hp.get('p0', 0), pt, pl) for k in range(hp.get('K', 2))])
+  return alg.init(init_params(hp.get('p0', 0), pt, pl))
 
 
 def aggregator(name, hp, fresh=False):
